@@ -2,6 +2,7 @@ package syntax
 
 import (
 	"context"
+	"fmt"
 	"io"
 	"os"
 	"path"
@@ -81,7 +82,7 @@ func ParseFileRecursively(file string) (<-chan directives.File, func(context.Con
 	return cpr.Produce(func(ctx context.Context, ch chan<- directives.File) error {
 		wg, ctx := errgroup.WithContext(ctx)
 		wg.Go(func() error {
-			res, err := parseRec(ctx, wg, ch, file)
+			res, err := parseRec(ctx, wg, ch, file, nil)
 			if err != nil {
 				return err
 			}
@@ -96,7 +97,13 @@ type Result struct {
 	Err  error
 }
 
-func parseRec(ctx context.Context, wg *errgroup.Group, resCh chan<- directives.File, file string) (directives.File, error) {
+func parseRec(ctx context.Context, wg *errgroup.Group, resCh chan<- directives.File, file string, includedBy []string) (directives.File, error) {
+	for _, ancestor := range includedBy {
+		if filepath.Clean(ancestor) == filepath.Clean(file) {
+			return directives.File{}, fmt.Errorf("include cycle: %s is included by itself (through %s)", file, includedBy[len(includedBy)-1])
+		}
+	}
+	includedBy = append(includedBy[:len(includedBy):len(includedBy)], file)
 	text, err := os.ReadFile(file)
 	if err != nil {
 		return directives.File{}, err
@@ -109,7 +116,7 @@ func parseRec(ctx context.Context, wg *errgroup.Group, resCh chan<- directives.F
 		if inc, ok := d.Directive.(directives.Include); ok {
 			file := path.Join(filepath.Dir(file), inc.IncludePath.Content.Extract())
 			wg.Go(func() error {
-				res, err := parseRec(ctx, wg, resCh, file)
+				res, err := parseRec(ctx, wg, resCh, file, includedBy)
 				if err != nil {
 					return err
 				}
